@@ -667,6 +667,7 @@ def t_sequences(max_len):
                     ("AQ", "S"), ("AX", "AQ", "S", "M"), ("P", "AQ", "O", "AQ", "S"), ("AQ", "R", "AQ", "S"), ("AX", "S", "AQ", "Q"),
                     ("P", "AQ", "S", "O", "AX", "S"),
                     ("AQO", "S"), ("AX", "AQO", "S", "M"), ("P", "AQO", "O", "AQO", "S"), ("AQO", "Q"),
+                    ("AX", "S", "M", "S", "M"), ("AY", "S", "M", "GV", "S", "GV", "M"), ("AX", "Q", "M", "AY", "S", "M"),
                     ("AV", "S"), ("P", "AV", "O", "AV", "S"), ("AX", "AV", "Q"), ("AP", "S"), ("P", "AP", "S", "O", "AP", "S"), ("AY", "AP", "Q"),
                     ("P", "AV", "AP", "O", "AP", "AV", "S")):
             if t_legal(seq) and seq not in seen:
@@ -713,10 +714,11 @@ def _text_chunk(seqs):
         pal = w.symbol("pal", ("ARRAY", INT, W2))
         FAP = w.app("Not", w.app("Equals", w.app("Select", pal, x), w.app("Select", pal, y)))
         forms = {"AX": FX, "AY": FY, "AU": FU, "AQ": FQV, "AQO": FQO, "AV": FAV, "AP": FAP}
-        model = {"x": 1, "y": 2, "z": 5, "a": True, "b": True}
+        model0 = {"x": 1, "y": 2, "z": 5, "a": True, "b": True}
         logic = it.module_global(w.repo.modules["pysmt.logics"], "QF_UFLIA")
         out = []
         for seq in seqs:
+            model = dict(model0)
             problems = []
             try:
                 n_checks = sum(1 for s_ in seq if s_ in ("S", "Q"))
@@ -782,10 +784,15 @@ def _text_chunk(seqs):
                                 if sym not in asg:
                                     problems.append("step %d: the model has no value for %s, which occurs in the live assertions" % (i, nm))
                                 else:
-                                    val = asg[sym]
+                                    # asked through the model's own interface
+                                    val = it.call(it.getattr(m, "get_value"), [sym])
                                     got = w.npayload(val) if w.is_node(val) else val
                                     if got != model[nm]:
                                         problems.append("step %d: the model gives %s = %r, the solver reported %r" % (i, nm, got, model[nm]))
+                        # the solver may report other values the next time it is asked
+                        for nm_ in ("x", "y", "z"):
+                            model[nm_] = model[nm_] + 1 if model[nm_] < 2 else model[nm_] - 1
+                            sim.model[nm_] = model[nm_]
                     elif st == "GV":
                         v = it.call(it.getattr(solver, "get_value"), [x])
                         got = w.npayload(v) if w.is_node(v) else v
